@@ -1069,7 +1069,7 @@ def build(only=None, name="archs"):
                     ("C13.insert.ok", "r is Ok ==> final(self)@ == old(self)@.insert(archetype.key(), archetype)"),
                     ("C13.archs.keyed", "final(self).inv_keyed()")] + lookups_ens("final(self)@.dom()"),
            hints=[Hint("start", "proof { vx_axiom_fresh_table(&self.raw_archetypes, &archetype); }")],
-           props=["C13", "C11", "C10"]),
+           props=["C13", "C11", "C10", "C16", "C06", "C01"]),
         Fn(AS, IMPL, "clear",
            requires=[("pre.archs_keyed", "old(self).inv_keyed()"),
                      ("pre.tables_ok", "vx_tables_ok(old(self)@, old(entity_allocator))"),
